@@ -55,8 +55,6 @@ Next == /\ Len(hist) < K
 Spec == Init /\ [][Next]_vars
 
 (* ----- what each call must answer, whatever came before ------------------ *)
-CldrOf(l, s, r) == LET n == KeyText(<<l, s, r>>) IN
-    IF \E p \in LayoutLocales : p[1] = n THEN << (CHOOSE p \in LayoutLocales : p[1] = n)[2] >> ELSE <<>>
 Expect(l, c) ==
     [op |-> c[1], s |-> c[2], r |-> c[3],
      max |-> IF c[1] = "max" THEN SetToSeq(AllowedMax(T, l, c[2], c[3])) ELSE <<>>,
